@@ -22,6 +22,8 @@ import (
 
 	"verifharness/vh"
 
+	"github.com/cilium/ebpf"
+	"github.com/cilium/ebpf/rlimit"
 	"github.com/codelaboratoryltd/bng/pkg/nat"
 	"go.uber.org/zap"
 )
@@ -49,6 +51,7 @@ type Case struct {
 	End   int    `json:"end"`
 	Log   string `json:"log"` // nil off bulk trad trad-csv
 	Buf   int    `json:"buf,omitempty"`
+	KMax  int    `json:"kmax,omitempty"` // > 0: the Manager writes into a real kernel subscriber_nat hash map of that many entries
 	Ops   []Op   `json:"ops"`
 }
 
@@ -126,6 +129,58 @@ type sys struct {
 	buf    *lockedBuf
 	mode   string
 	lastTS time.Time
+	kmap   *ebpf.Map
+}
+
+// newSubscriberNATMap creates a kernel hash map with the key/value sizes the Go side marshals
+// (uint32 key, nat.SubscriberNAT value) and the given number of entries.
+func newSubscriberNATMap(max int) (*ebpf.Map, error) {
+	return ebpf.NewMap(&ebpf.MapSpec{Name: "subscriber_nat", Type: ebpf.Hash, KeySize: 4,
+		ValueSize: uint32(binary.Size(nat.SubscriberNAT{})), MaxEntries: uint32(max)})
+}
+
+var kernelBPF = func() bool {
+	rlimit.RemoveMemlock()
+	m, err := newSubscriberNATMap(1)
+	if err != nil {
+		return false
+	}
+	m.Close()
+	return true
+}()
+
+// kdump: the raw content of subscriber_nat, keys as the Go side wrote them (native-endian uint32 of
+// ipToKey), values decoded with the Go struct; sorted by key; AllocatedAt (a timestamp) projected out.
+func (s *sys) kdump() string {
+	type kv struct {
+		k uint32
+		v nat.SubscriberNAT
+	}
+	var all []kv
+	var kb, vb []byte
+	it := s.kmap.Iterate()
+	for it.Next(&kb, &vb) {
+		var e kv
+		e.k = binary.LittleEndian.Uint32(kb)
+		if err := binary.Read(bytes.NewReader(vb), binary.LittleEndian, &e.v); err != nil {
+			panic(err)
+		}
+		all = append(all, e)
+	}
+	if err := it.Err(); err != nil {
+		panic(err)
+	}
+	sort.Slice(all, func(i, j int) bool { return all[i].k < all[j].k })
+	var l []string
+	for _, e := range all {
+		b := e.v.Block
+		probe := e.v
+		probe.Block = nat.PortBlock{}
+		rest0 := b.PortsInUse == 0 && b.Flags == 0 && probe == (nat.SubscriberNAT{})
+		l = append(l, fmt.Sprintf("(ke %d %d %d %d %d %d %d %s)", e.k, b.PublicIP, b.PortStart, b.PortEnd, b.NextPort,
+			b.SubscriberID, b.BlockSizeLog2, vh.Bool(rest0)))
+	}
+	return "(KDump, KMap " + vh.List(l) + ")"
 }
 
 func newSys(c Case) *sys {
@@ -135,6 +190,14 @@ func newSys(c Case) *sys {
 		panic(err)
 	}
 	s := &sys{mgr: mgr, mode: c.Log, buf: &lockedBuf{}}
+	if c.KMax > 0 {
+		m, err := newSubscriberNATMap(c.KMax)
+		if err != nil {
+			panic(err)
+		}
+		s.kmap = m
+		mgr.VerifInjectMaps(nat.VerifNATMaps{SubscriberNAT: m})
+	}
 	if c.Log != "nil" {
 		format := nat.LogFormatJSON
 		if c.Log == "trad-csv" {
@@ -271,12 +334,18 @@ func errClass(err error) int {
 		return 1
 	case strings.Contains(err.Error(), "already"):
 		return 2
+	case strings.Contains(err.Error(), "eBPF map"):
+		return 3
 	}
 	return 9
 }
 
 func run(c Case) vh.Case {
 	s := newSys(c)
+	if s.kmap != nil {
+		defer s.kmap.Close()
+	}
+	failed := map[uint32]bool{}
 	tags := map[string]bool{"log:" + c.Log: true, fmt.Sprintf("cfg:%d-%d/%d", c.Start, c.End, c.PPS): true}
 	var tr []string
 	nAlloc, nNew, nExh, midRel := 0, 0, 0, false
@@ -339,6 +408,19 @@ func run(c Case) vh.Case {
 				l = append(l, fmt.Sprintf("(%d, %s, %s)", key(p.PublicIP), Z(int64(p.Subscribers)), Z(int64(p.MaxSubscribers))))
 			}
 			op, res = "Stats", fmt.Sprintf("RStats %d %s", s.mgr.GetAllocationCount(), vh.List(l))
+		case "kput", "kdel": // the harness's own entries in subscriber_nat (foreign keys)
+			var kb [4]byte
+			binary.LittleEndian.PutUint32(kb[:], o.IP)
+			res = "RNone"
+			if o.K == "kput" {
+				op = fmt.Sprintf("KPut %d", o.IP)
+				if err := s.kmap.Put(kb[:], make([]byte, s.kmap.ValueSize())); err != nil {
+					res = "RErr 3"
+				}
+			} else {
+				op = fmt.Sprintf("KDel %d", o.IP)
+				s.kmap.Delete(kb[:])
+			}
 		case "conc":
 			op, res = s.conc(o), "RNone"
 			tags[fmt.Sprintf("conc:goroutines:%d", len(o.Scripts))] = true
@@ -363,7 +445,27 @@ func run(c Case) vh.Case {
 		}
 		after := time.Now().UTC()
 		tags["op:"+o.K] = true
-		tr = append(tr, fmt.Sprintf("(%s, mo (%s) %s %s)", op, res, recsCoq(rs), vh.Bool(s.tsOK(rs, before, after))))
+		if o.K == "alloc" {
+			if strings.HasPrefix(res, "RErr 3") {
+				tags["saw:map-update-failed"] = true
+				failed[o.IP] = true
+			} else if strings.HasPrefix(res, "RAlloc") && failed[o.IP] {
+				tags["saw:success-after-map-update-failure"] = true
+				delete(failed, o.IP)
+			}
+		}
+		tsok := vh.Bool(s.tsOK(rs, before, after))
+		ent := fmt.Sprintf("(%s, mo (%s) %s %s)", op, res, recsCoq(rs), tsok)
+		if s.kmap != nil {
+			if o.K == "kput" || o.K == "kdel" {
+				ent = fmt.Sprintf("(%s, KOut (mo (%s) [] true))", op, res)
+			} else {
+				ent = fmt.Sprintf("(KO (%s), KOut (mo (%s) %s %s))", op, res, recsCoq(rs), tsok)
+			}
+			tr = append(tr, ent, s.kdump()) // after every op: the raw content of the kernel map
+			continue
+		}
+		tr = append(tr, ent)
 	}
 	if nExh > 0 {
 		tags["saw:exhausted"] = true
@@ -380,6 +482,10 @@ func run(c Case) vh.Case {
 	}
 	sort.Strings(tl)
 	coq := fmt.Sprintf("(%s, %s, %s, %s,\n  %s)", Z(int64(c.PPS)), Z(int64(c.Start)), Z(int64(c.End)), coqMode(c.Log), vh.List(tr))
+	if c.KMax > 0 {
+		tl = append(tl, fmt.Sprintf("kmax:%d", c.KMax))
+		coq = fmt.Sprintf("(%s, %s, %s, %s, %d,\n  %s)", Z(int64(c.PPS)), Z(int64(c.Start)), Z(int64(c.End)), coqMode(c.Log), c.KMax, vh.List(tr))
+	}
 	return vh.Case{Coq: coq, Desc: c, Tags: tl}
 }
 
@@ -791,6 +897,61 @@ func genFlusher(r *vh.Rng, mode string) Case {
 	return c
 }
 
+const foreignBase = 0xC0A80000 // 192.168.0.0: keys the harness itself puts into subscriber_nat
+
+// genKmapTiny: a subscriber_nat of 1-2 entries, partly occupied by foreign keys, so that the map
+// update inside AllocateNAT fails at chosen points; then retry / GetAllocation / release / room / retry.
+func genKmapTiny(r *vh.Rng, mode string) Case {
+	c := Case{PPS: 1000, Start: 60000, End: 65535, Log: mode, Buf: []int{0, 10}[r.Intn(2)], KMax: 1 + r.Intn(2)}
+	c.Ops = append(c.Ops, Op{K: "addip", IP: pub(0)})
+	if r.Bool() {
+		c.Ops = append(c.Ops, Op{K: "addip", IP: pub(1)})
+	}
+	nsub := 2 + r.Intn(3)
+	n := 8 + r.Intn(20)
+	last := 0
+	for len(c.Ops) < n {
+		x := r.Intn(100)
+		switch {
+		case x < 10:
+			c.Ops = append(c.Ops, Op{K: "kput", IP: foreignBase + 1 + uint32(r.Intn(2))})
+		case x < 20:
+			c.Ops = append(c.Ops, Op{K: "kdel", IP: foreignBase + 1 + uint32(r.Intn(2))})
+		case x < 50:
+			last = r.Intn(nsub)
+			c.Ops = append(c.Ops, Op{K: "alloc", IP: priv(last)})
+		case x < 62: // ask again for the subscriber of the last AllocateNAT (a retry after a failure)
+			c.Ops = append(c.Ops, Op{K: "alloc", IP: priv(last)})
+		case x < 72:
+			c.Ops = append(c.Ops, Op{K: "get", IP: priv(last)})
+		case x < 88:
+			c.Ops = append(c.Ops, Op{K: "dealloc", IP: priv(r.Intn(nsub))})
+		case x < 94:
+			c.Ops = append(c.Ops, Op{K: "stats"})
+		default:
+			c.Ops = append(c.Ops, Op{K: "get", IP: priv(r.Intn(nsub))})
+		}
+	}
+	// make room, then everybody asks once more
+	c.Ops = append(c.Ops, Op{K: "kdel", IP: foreignBase + 1}, Op{K: "kdel", IP: foreignBase + 2})
+	for i := 0; i < nsub; i++ {
+		c.Ops = append(c.Ops, Op{K: "alloc", IP: priv(i)}, Op{K: "get", IP: priv(i)})
+	}
+	c.Ops = append(c.Ops, Op{K: "stats"})
+	return c
+}
+
+const kheader = `From Coq Require Import ZArith NArith List. Import ListNotations.
+From Verif Require Import Model.Nat Model.NatSpec Model.NatCheck.
+Local Open Scope Z_scope.
+Definition cases : list kcase := [
+`
+const kfooter = `
+].
+Definition R := Eval vm_compute in run_kcases cases.
+Print R.
+`
+
 const header = `From Coq Require Import ZArith NArith List. Import ListNotations.
 From Verif Require Import Model.Nat Model.NatSpec Model.NatCheck.
 Local Open Scope Z_scope.
@@ -812,20 +973,38 @@ func main() {
 		if err := vh.LoadReplay(cfg.Replay, &c); err != nil {
 			panic(err)
 		}
+		if c.KMax > 0 {
+			if !kernelBPF {
+				fmt.Println("kernel refuses bpf(): cannot replay a kernel-map case")
+				vh.Emit(cfg, "kmap", kheader, kfooter, nil, map[string]interface{}{"kernel_bpf": false})
+				return
+			}
+			vh.Emit(cfg, "kmap", kheader, kfooter, []vh.Case{run(c)}, map[string]interface{}{"kernel_bpf": true})
+			return
+		}
 		vh.Emit(cfg, "cases", header, footer, []vh.Case{run(c)}, nil)
 		return
 	}
 	r := vh.NewRng(cfg.Seed)
-	var corpus []vh.Case
+	var corpus, kcorpus []vh.Case
 	for _, f := range vh.CorpusFiles(cfg) {
 		var c Case
 		if err := vh.LoadReplay(f, &c); err != nil {
 			panic(err)
 		}
+		if c.KMax > 0 {
+			if kernelBPF {
+				kcorpus = append(kcorpus, run(c))
+			}
+			continue
+		}
 		corpus = append(corpus, run(c))
 	}
 	if len(corpus) > 0 {
 		vh.Emit(cfg, "corpus", header, footer, corpus, nil)
+	}
+	if len(kcorpus) > 0 {
+		vh.Emit(cfg, "corpus_kmap", kheader, kfooter, kcorpus, map[string]interface{}{"kernel_bpf": true})
 	}
 
 	// guarded stream 1: exhaustive effective histories
@@ -929,4 +1108,30 @@ func main() {
 		}
 	}
 	vh.Emit(cfg, "flush", header, footer, fl, nil)
+
+	// the Manager writing into a real kernel subscriber_nat map (roomy: the map mirrors the table
+	// after every op; tiny: the update inside AllocateNAT fails at chosen points)
+	if !kernelBPF {
+		fmt.Println("kernel refuses bpf(): kernel-map stream skipped")
+		vh.Emit(cfg, "kmap", kheader, kfooter, nil, map[string]interface{}{"kernel_bpf": false})
+		return
+	}
+	nK := 30
+	if cfg.Thorough() {
+		nK = 400
+	}
+	var km []vh.Case
+	for i := 0; i < nK; i++ {
+		mode := logModes[i%len(logModes)]
+		km = append(km, run(genKmapTiny(r.Fork(), mode)))
+		if i%3 == 0 {
+			rg := ranges[(i/3)%len(ranges)]
+			g := genRandom(r.Fork(), geom{rg[0], rg[1], ppss[(i/3)%len(ppss)]}, mode, 25)
+			g.KMax = 64
+			km = append(km, run(g))
+		}
+	}
+	kcfg := cfg
+	kcfg.Shard = 10
+	vh.Emit(kcfg, "kmap", kheader, kfooter, km, map[string]interface{}{"kernel_bpf": true})
 }
